@@ -511,7 +511,8 @@ func ruleCloseResetsFlags(c *eng.Ctx) {
 				return
 			}
 			fr, ok := eng.AsField(st.Addr)
-			if !ok || !strings.HasSuffix(fr.Struct, "tabula.Extractor") {
+			// a field of the extractor, or of a struct of the package embedded in it (a lifecycle record)
+			if !ok || !(strings.HasSuffix(fr.Struct, "tabula.Extractor") || strings.HasPrefix(fr.Struct, "tabula.")) {
 				return
 			}
 			if cst, ok := st.Val.(*ssa.Const); ok && cst.Value != nil && cst.Value.ExactString() == "true" {
